@@ -229,15 +229,17 @@ Definition split_gradient_at (s : sys) (g : grad) (tp : Q) : res split_out :=
    Every event kind has duration = delay + (a length that does not depend on the delay):
    rf: shape_dur + ringdown_time, grad: shape_dur, adc: num_samples*dwell + dead_time,
    trap: rise + flat + fall, output/trigger: duration, delay: 0 (calc_duration.py:39-55).
-   [a_tag] stands for all other fields of the event. *)
-Record aev := mkAev { a_len : Q; a_delay : Q; a_tag : Z }.
+   [a_tag] stands for all other fields of the event, [a_id] for the optional library id. *)
+Record aev := mkAev { a_len : Q; a_delay : Q; a_tag : Z; a_id : option Z }.
 
 Definition ev_duration (e : aev) : Q := a_delay e + a_len e.
 (* calc_duration.py:29-58: duration = 0; duration = max(duration, ...) *)
 Definition calc_duration (l : list aev) : Q :=
   fold_left (fun d e => Qmax d (ev_duration e)) l 0.
 
-Definition set_delay (e : aev) (d : Q) : aev := mkAev (a_len e) d (a_tag e).
+(* align.py:66-69: the copy drops the library id (it is a new event), then gets its delay *)
+Definition set_delay (e : aev) (d : Q) : aev :=
+  mkAev (a_len e) d (a_tag e) (if align_drops_id then None else a_id e).
 
 (* align.py:65-75; calc_duration(objects[i]) of ONE event is max(0, delay + length) *)
 Fixpoint align_go (dur : Q) (l : list (nat * aev)) : res (list aev) :=
